@@ -27,6 +27,9 @@ class C03(Check):
                 # a bounded since / once / historically next to a sibling with a larger look-ahead: the past operator itself is delayed
                 ('and', ('sincet', 1, 2, P, Q), ('evt', 0, 3, P)), ('or', ('next', Q), ('sincet', 0, 2, P, Q)), ('and', ('since', P, Q), ('alwt', 1, 2, Q)),
                 ('or', ('sincet', 2, 3, Q, P), ('snext', ('next', P))), ('and', ('oncet', 1, 2, P), ('evt', 2, 3, Q)), ('or', ('histt', 0, 2, P), ('evt', 1, 2, Q))]
+        # prev / s_prev / rise / fall directly above a future operator (outside the guard: the output must be what the delay scheme computes)
+        base += [('prev', ('evt', 0, 2, P)), ('and', ('prev', ('next', P)), Q), ('prev', ('prev', ('alwt', 1, 2, P))), ('sprev', ('evt', 1, 2, P)),
+                 ('or', ('prev', ('untilt', 0, 2, P, Q)), ('next', Q)), ('rise', ('evt', 0, 1, P)), ('once', ('prev', ('next', P)))]
         items = [(f, 2, 'stl') for f in base for _ in range(3)]
         items += [(f, 2, 'ltl') for f in [('and', ('next', P), Q), ('or', ('snext', ('next', P)), ('prev', Q)), ('a2', 'add', ('next', ('var', 0)), ('var', 1)),
                                          ('implies', Q, ('next', ('not', P))), ('pred', 'geq', ('a1', 'neg', ('next', ('var', 0))), ('var', 1))]]
